@@ -187,5 +187,8 @@ class C05(Spec):
                 yield dict(c, idx={'t': 'tup', 'v': v})
 
 
+SPEC = C05()
+
+
 def main(tier):
-    return standard_check(C05(), tier)
+    return standard_check(SPEC, tier)
